@@ -874,6 +874,28 @@ func (r *runner) runOp(op opSpec) error {
 			return fmt.Errorf("%s rewrote %q, which it must not touch", what, k)
 		}
 	}
+	if op.Kind == "delfiles" {
+		// the stored file lists of every bundle of the repository hold the former entries minus the paths
+		for _, id := range target.ids() {
+			lay, lerr := layout(after.meta, op.Repo, id)
+			if lerr != nil {
+				return fmt.Errorf("%s: stored file list of bundle %s unreadable: %v", what, id, lerr)
+			}
+			mb := target.bundles[id]
+			n := 0
+			for _, es := range lay {
+				for _, e := range es {
+					n++
+					if f, ok := mb.files[e.NameWithPath]; !ok || f.hash != e.Hash || f.size != e.Size {
+						return fmt.Errorf("%s: stored file lists of bundle %s hold entry %q (%s,%d) which is not a remaining entry of that bundle", what, id, e.NameWithPath, e.Hash, e.Size)
+					}
+				}
+			}
+			if n != len(mb.files) {
+				return fmt.Errorf("%s: stored file lists of bundle %s hold %d entries, want %d", what, id, n, len(mb.files))
+			}
+		}
+	}
 	// labels live in vmetadata, everything else in metadata: nothing may sit in the wrong store
 	for k := range after.vmeta {
 		if kind, _, ok := owner(k); ok && kind != "labels" {
